@@ -115,6 +115,8 @@ var clock = struct {
 	flushGo   int64
 	spawnsAny int64
 	spawnGens []int
+	exits     int64 // flushers of the current generation that returned
+	spawns    int64 // flushers spawned in the current generation
 }{gens: map[int64]int{}, scale: 50}
 
 const flusherFunc = "startAsyncWritesRoutine"
@@ -133,6 +135,7 @@ func clockGo(name, ev string) {
 	switch ev {
 	case "spawn":
 		clock.live++
+		clock.spawns++
 		clock.flushGo++
 		clock.spawnGens = append(clock.spawnGens, clock.gen)
 	case "enter":
@@ -148,6 +151,7 @@ func clockGo(name, ev string) {
 		g := gid()
 		if clock.gens[g] == clock.gen {
 			clock.live--
+			clock.exits++
 		}
 		delete(clock.gens, g)
 	}
@@ -205,6 +209,7 @@ func clockNewCase(mode int) {
 	clock.vtime = 0
 	clock.stuck = false
 	clock.spawnsAny = 0
+	clock.exits, clock.spawns = 0, 0
 	clock.mu.Unlock()
 }
 
@@ -304,4 +309,11 @@ func clockSpawnsAny() int64 {
 	clock.mu.Lock()
 	defer clock.mu.Unlock()
 	return clock.spawnsAny
+}
+
+// clockFlusherCensus: flushers spawned / returned in the current generation.
+func clockFlusherCensus() (spawned, exited int64) {
+	clock.mu.Lock()
+	defer clock.mu.Unlock()
+	return clock.spawns, clock.exits
 }
